@@ -483,8 +483,11 @@ class TermInterp:
             if not rest:
                 self.err("np.zeros without a point axis", e)
             return Table(tuple(lead)) if lead else Terms(symmetric=self.symmetric)
-        if d == "enumerate" and len(args) == 1:
-            return list(enumerate(args[0]))
+        if d == "enumerate" and len(args) in (1, 2):
+            start = args[1] if len(args) == 2 else kw.get("start", 0)
+            if not isinstance(start, int) or set(kw) - {"start"}:
+                self.err("enumerate with a non-constant start", e)
+            return list(enumerate(args[0], start))
         if d == "range":
             return list(range(*args))
         if d == "zip":
